@@ -81,7 +81,13 @@ def decode_length(ctx, rep):
                 y = x
                 while y[0] in ("deref", "ref"):
                     y = y[1]
-                if y[0] == "field" and y[1][0] == "downcast" and y[1][3] == "Some" and y[1][1][0] == "call" and y[1][1][1].endswith("first"):
+                if y[0] == "field" and y[1][0] == "downcast" and y[1][3] == "Some" and y[1][1][0] == "call":
+                    c = y[1][1]
+                    if c[1].endswith("first") and strip_refs(strip_to_src(c[3][0])) == ("arg", 2):
+                        return ("first", 8)
+                    if re.search(r"::get$", c[1]) and len(c[3]) > 1 and c[3][1][0] == "const" and c[3][1][1] == 0 and strip_refs(strip_to_src(c[3][0])) == ("arg", 2):
+                        return ("first", 8)
+                if y[0] == "index" and strip_refs(strip_to_src(y[1])) == ("arg", 2) and y[2][0] == "const" and y[2][1] == 0:
                     return ("first", 8)
                 return None
             shift = 0 if hi == 255 else 2
@@ -90,21 +96,46 @@ def decode_length(ctx, rep):
             okv = len(got_bits) == 1 and got_bits[0] == expect
             rep.check("R4.1", "%s:value" % vn, okv, "Mode::%s: the announced length must be the first byte x %d computed without losing bits; %s gives %s" % (vn, 1 << shift, [fmt_origin(e) for e in exprs], [str(x) for x in (got_bits[0][:12] if got_bits else [])]),
                       b.loc(st["line"]), sample={"mode": vn, "definition": [fmt_origin(e) for e in exprs]})
-        # the accepting row demands src.len() >= n
+        # the accepting row demands src.len() >= n (n = the very value returned in Some)
         vrows = [r for r in rows if r[1][1] == "Ok" and r[1][2] and r[1][2][0].startswith("Some{") and ("discr(*arg1)", "eq", (vi,)) in [(c[1], c[2], c[3]) for c in r[0]]]
         okc = False
+
+        def is_src_len(o):
+            return o[0] == "call" and re.search(r"BytesMut::len$", o[1] or "") is not None and strip_refs(o[3][0]) == ("arg", 2)
         for r in vrows:
+            payload = r[1][3][0]
+            nval = payload[2][0] if payload[0] == "agg" and payload[2] else None
             for c in r[0]:
-                if re.match(r"^\(len\(&\*arg2\) Lt \('phi', \d+\)\)$", c[1]) and c[2] == "eq" and c[3] == (0,):
+                o = c[4]
+                if o[0] != "bin" or nval is None:
+                    continue
+                op, l, rr = o[1], o[2], o[3]
+                truth = (c[2] == "ne" and c[3] == (0,)) or (c[2] == "eq" and c[3] == (1,))
+                if op == "Lt" and is_src_len(l) and rr == nval and not truth:
                     okc = True
-                if re.match(r"^\(\('phi', \d+\) Gt len\(&\*arg2\)\)$", c[1]) and c[2] == "eq" and c[3] == (0,):
+                if op == "Gt" and is_src_len(rr) and l == nval and not truth:
                     okc = True
-                if re.match(r"^\(len\(&\*arg2\) Ge \('phi', \d+\)\)$", c[1]) and c[2] == "ne" and c[3] == (0,):
+                if op == "Ge" and is_src_len(l) and rr == nval and truth:
+                    okc = True
+                if op == "Le" and is_src_len(rr) and l == nval and truth:
                     okc = True
         rep.check("R4.1", "%s:whole-frame-buffered" % vn, okc and len(vrows) == 1,
-                  "Mode::%s: `Some(n)` must be guarded by `src.len() >= n` (rows %s)" % (vn, [[c[1] for c in r[0]] for r in vrows]), b.loc(),
+                  "Mode::%s: `Some(n)` must be guarded by `src.len() >= n` for the n it returns (rows %s)" % (vn, [[c[1] for c in r[0]] for r in vrows]), b.loc(),
                   sample={"mode": vn, "conditions": [[c[1], c[2]] for r in vrows for c in r[0]]})
     rep.floor("R4.1", 9)
+
+
+def strip_to_src(o):
+    """look through Deref::deref / as_ref style calls and references to the buffer they were applied to"""
+    x = o
+    for _ in range(6):
+        if x[0] in ("ref", "deref"):
+            x = x[1]
+        elif x[0] == "call" and re.search(r"Deref::deref$|AsRef.*::as_ref$|::as_slice$|::chunk$", x[1] or "") and x[3]:
+            x = x[3][0]
+        else:
+            break
+    return x
 
 
 def decode(ctx, rep):
